@@ -289,6 +289,13 @@ def cases(tier, seed):
             for two in (False, True):
                 yield {"special": "twin", "values": twin, "strat": st,
                        "two": two}
+    # a single (name, values) pair whose name has as many characters as it
+    # has values (it must not be taken for a sequence of pairs)
+    for name_, vals_ in (("x0", ["p", "q"]), ("x0", [3, 1]), ("abc", [1, 2, 3]),
+                         ("ab", ["uv", "wx"])):
+        for st in ("seq", "shuffle"):
+            yield {"special": "pairname", "name": name_, "values": vals_,
+                   "strat": st}
     # the swept function raises StopIteration for one combination: it reaches
     # the caller, the sweep does not end as if it were complete
     for n in (3, 4):
@@ -397,6 +404,23 @@ def check_special(case):
     kw = dict(verbosity=0)
     if st == "shuffle":
         kw["shuffle"] = 2
+    if case["special"] == "pairname":
+        nm, vals = case["name"], case["values"]
+        f = xfn.make_fn([nm], kind="tstr", name="f01")
+        key = "C01|%s|pair-spelling|" % st
+        with xfn.CallLog() as log:
+            try:
+                got = xyz.combo_runner(f, (nm, list(vals)), **kw)
+            except Exception as e:
+                return fin_special(case, [(key + "raised:" + type(e).__name__,
+                                           "combos=(%r, %r): %r" % (nm, vals,
+                                                                    e))])
+        want = tuple(xfn.expected("tstr", {nm: v}) for v in vals)
+        if not cmp.leaf_equal(got, want) or len(log.calls) != len(vals):
+            return fin_special(case, [(key + "wrong", "combos=(%r, %r): %d "
+                                       "calls, result %r" % (
+                                           nm, vals, len(log.calls), got))])
+        return fin_special(case, [])
     if case["special"] == "twin":
         vals = case["values"]
         f = xfn.make_fn(["a", "b"] if case["two"] else ["a"], kind="tstr",
